@@ -242,21 +242,32 @@ pub fn run_c03(o: &Opts, drv: &mut Driver, rep: &mut Report) {
 
 fn flip(m: &mut [u8], pos: usize) { m[pos / 8] ^= 1 << (pos % 8); }
 
-/// one tampered message against the real sender and the model (`ss send`)
-fn tampered(drv: &mut Driver, rep: &mut Report, stream: &str, name: &str, c: &Case, honest_r1: &[u8], m: &[u8], ask_model: bool) {
-    if m == honest_r1 { rep.hist("mut:skipped-noop"); return; }
-    let sreq = send_req(&c.sid, &c.sd, m);
-    let idx = rep.case(stream, Some(&sreq));
-    rep.hist(&format!("mut:{name}"));
-    let got = run_send(&c.sid, &c.sd.r, m);
-    let got_s = send_str(&got);
-    if !matches!(got, Some(Err(()))) {
-        rep.pred_fail(Failure { stream: stream.into(), index: idx, request: vec![sreq.clone()], impl_out: clip(&got_s), model_out: "ban".into(), key: format!("ss:tamper-accepted:{name}"), what: format!("a first-round message altered in transit ({name}) does not make the sender abort with AbortProtocolAndBanReceiver") });
+/// tampered messages against the real sender (each) and the model (one batched `ss verdicts` request)
+fn tampered_batch(drv: &mut Driver, rep: &mut Report, stream: &str, c: &Case, honest_r1: &[u8], muts: Vec<(String, Vec<u8>)>) {
+    let muts: Vec<(String, Vec<u8>)> = muts.into_iter().filter(|(_, m)| { let noop = m == honest_r1; if noop { rep.hist("mut:skipped-noop"); } !noop }).collect();
+    if muts.is_empty() { return; }
+    // the honest message goes first: anchor (verdict 1) and cache key for the mutations that leave u unchanged
+    let mut all: Vec<String> = vec![hex::encode(honest_r1)];
+    all.extend(muts.iter().map(|(_, m)| hex::encode(m)));
+    let vreq = format!("ss verdicts {} {} {} {}", hexw(&c.sid), rc_hex(&c.sd), dec_hex(&c.sd), all.join(","));
+    let model = drv.ask_with(&vreq, &mut |q| oracle::answer(q));
+    if !model.starts_with('1') {
+        rep.diverge(Failure { stream: stream.into(), index: 0, request: vec![send_req(&c.sid, &c.sd, honest_r1)], impl_out: "1".into(), model_out: clip(&model), key: "ss:send-model".into(), what: "model does not accept the honest message in a verdict batch".into() });
+        return;
     }
-    if ask_model {
-        let model = drv.ask_with(&sreq, &mut |q| oracle::answer(q));
-        if model != got_s {
-            rep.diverge(Failure { stream: stream.into(), index: idx, request: vec![sreq], impl_out: got_s, model_out: model, key: "ss:send-model".into(), what: format!("Lean model senderProcess and SoftSpokenOTSender::process disagree (tamper {name})") });
+    let mv: Vec<char> = model.chars().skip(1).collect();
+    for (n, (name, m)) in muts.iter().enumerate() {
+        let sreq = send_req(&c.sid, &c.sd, m);
+        let idx = rep.case(stream, Some(&sreq));
+        rep.hist(&format!("mut:{name}"));
+        let got = run_send(&c.sid, &c.sd.r, m);
+        let got_s = send_str(&got);
+        if !matches!(got, Some(Err(()))) {
+            rep.pred_fail(Failure { stream: stream.into(), index: idx, request: vec![sreq.clone()], impl_out: clip(&got_s), model_out: "ban".into(), key: format!("ss:tamper-accepted:{name}"), what: format!("a first-round message altered in transit ({name}) does not make the sender abort with AbortProtocolAndBanReceiver") });
+        }
+        let impl_v = match got { Some(Ok(_)) => '1', Some(Err(())) => '0', None => 'p' };
+        if mv.get(n) != Some(&impl_v) {
+            rep.diverge(Failure { stream: stream.into(), index: idx, request: vec![sreq], impl_out: impl_v.to_string(), model_out: mv.get(n).map(|c| c.to_string()).unwrap_or(clip(&model)), key: "ss:send-model".into(), what: format!("Lean model senderVerdict and SoftSpokenOTSender::process disagree (tamper {name})") });
         }
     }
 }
@@ -372,7 +383,8 @@ fn tamper_stream(o: &Opts, drv: &mut Driver, rep: &mut Report) {
         // ---- multi-bit, overwrites, swaps
         let reps = if thorough { 6 } else { 1 };
         for _ in 0..reps {
-            for (name, m) in field_mutations(&mut rng, &r1) { tampered(drv, rep, "field-mutation", &name, &c, &r1, &m, true); }
+            let muts = field_mutations(&mut rng, &r1);
+            tampered_batch(drv, rep, "field-mutation", &c, &r1, muts);
         }
         // ---- splices / replays from another session id, another seed set, another choice vector, another tape
         let mut other_sid = c.sid.clone(); if other_sid.is_empty() { other_sid.push(0) } else { let p = rng.gen_range(0..other_sid.len() * 8); flip(&mut other_sid, p); }
@@ -385,10 +397,12 @@ fn tamper_stream(o: &Opts, drv: &mut Driver, rep: &mut Report) {
             ("other-choice-vector", run_recv(&c.sid, &c.sd.s, &ch2, &c.tape), false),
             ("other-tape", run_recv(&c.sid, &c.sd.s, &c.choices, &tape2), false),
         ];
+        let mut muts = vec![];
         for (what, out, whole) in variants {
             let Some(out) = out else { continue };
-            for (name, m) in splices(&r1, &out.r1, what, whole) { tampered(drv, rep, "splice", &name, &c, &r1, &m, true); }
+            muts.extend(splices(&r1, &out.r1, what, whole));
         }
+        tampered_batch(drv, rep, "splice", &c, &r1, muts);
     }
     // ---- excluded point, directed: all punctured indices 0 => x is never read; a flip of x is accepted by any
     //      verifier of this protocol and the outputs are the honest ones.  Recorded, compared with the model, not a failure.
@@ -433,37 +447,63 @@ fn gen_e(rng: &mut impl RngCore, kind: usize) -> ([u8; L_PRIME_BYTES], &'static 
     }
 }
 
-fn adversary(drv: &mut Driver, rep: &mut Report, c: &Case, hon_r1: &[u8], hon: &SenderExtendedOutput, devs: &[Dev], tag: &str) {
-    let areq = adv_req(c, devs);
-    let idx = rep.case("adversary", Some(&areq));
-    rep.hist(&format!("adv:{tag}"));
-    let r1hex = drv.ask_with(&areq, &mut |q| oracle::answer(q));
-    let Ok(m) = hex::decode(&r1hex) else {
-        rep.diverge(Failure { stream: "adversary".into(), index: idx, request: vec![areq], impl_out: "-".into(), model_out: clip(&r1hex), key: "ss:adv-model".into(), what: "advReceiver did not return a message".into() }); return };
-    if m.len() != R1_BYTES { rep.diverge(Failure { stream: "adversary".into(), index: idx, request: vec![areq], impl_out: "-".into(), model_out: clip(&r1hex), key: "ss:adv-model".into(), what: "advReceiver message has the wrong length".into() }); return }
-    let deviating: Vec<&Dev> = devs.iter().filter(|d| d.e != [0u8; L_PRIME_BYTES]).collect();
-    if deviating.is_empty() && m != hon_r1 {
-        rep.diverge(Failure { stream: "adversary".into(), index: idx, request: vec![areq.clone()], impl_out: "honest message".into(), model_out: "different".into(), key: "ss:adv-model".into(), what: "advReceiver without deviation differs from the honest message of the implementation".into() });
+struct AdvCase { devs: Vec<Dev>, tag: String }
+
+/// all deviation sets of one base case: messages built by the Lean `advReceiver` (one batched `ss adv`), each
+/// transported into the real sender; model verdicts in one batched `ss verdicts`; for up to `full` accepted
+/// messages the complete sender outputs are also compared with the model (`ss send`)
+fn adversaries(drv: &mut Driver, rep: &mut Report, c: &Case, hon_r1: &[u8], hon: &SenderExtendedOutput, cases: &[AdvCase], mut full: usize) {
+    if cases.is_empty() { return; }
+    let sets: Vec<String> = cases.iter().map(|a| { let r = adv_req(c, &a.devs); r.rsplit(' ').next().unwrap().to_string() }).collect();
+    let breq = format!("{} {}", adv_req(c, &[]).rsplit_once(' ').unwrap().0, sets.join(";"));
+    let ans = drv.ask_with(&breq, &mut |q| oracle::answer(q));
+    let msgs: Vec<Vec<u8>> = ans.split(',').filter_map(|h| hex::decode(h).ok()).filter(|m| m.len() == R1_BYTES).collect();
+    if msgs.len() != cases.len() {
+        rep.diverge(Failure { stream: "adversary".into(), index: 0, request: vec![breq], impl_out: format!("{} deviation sets", cases.len()), model_out: clip(&ans), key: "ss:adv-model".into(), what: "advReceiver did not return one message per deviation set".into() });
+        return;
     }
-    // the u-blocks of the deviating message are the honest ones xor e (the adversary really deviates as claimed)
-    for d in devs { for b in 0..L_PRIME_BYTES { if m[d.block * L_PRIME_BYTES + b] != hon_r1[d.block * L_PRIME_BYTES + b] ^ d.e[b] {
-        rep.diverge(Failure { stream: "adversary".into(), index: idx, request: vec![areq.clone()], impl_out: "u_i xor e_i".into(), model_out: "different".into(), key: "ss:adv-model".into(), what: "advReceiver's u block is not the honest block xor the deviation".into() }); break } } }
-    let expect_accept = deviating.iter().all(|d| d.guess == c.sd.r.random_choices[d.block]);
-    let sreq = send_req(&c.sid, &c.sd, &m);
-    let got = run_send(&c.sid, &c.sd.r, &m);
-    let got_s = send_str(&got);
-    let model = drv.ask_with(&sreq, &mut |q| oracle::answer(q));
-    if got_s != model {
-        rep.diverge(Failure { stream: "adversary".into(), index: idx, request: vec![areq.clone(), sreq.clone()], impl_out: got_s.clone(), model_out: model, key: "ss:send-model".into(), what: format!("Lean model senderProcess and SoftSpokenOTSender::process disagree (adversarial message, {tag})") });
-    }
-    let accepted = matches!(got, Some(Ok(_)));
-    rep.hist(if accepted { "adv-verdict:accepted" } else { "adv-verdict:ban" });
-    if accepted != expect_accept || got.is_none() {
-        rep.pred_fail(Failure { stream: "adversary".into(), index: idx, request: vec![areq.clone(), sreq.clone()], impl_out: clip(&got_s), model_out: (if expect_accept { "accepted" } else { "ban" }).into(), key: format!("ss:selective-failure:{}", if expect_accept { "right-guess-rejected" } else { "wrong-guess-accepted" }), what: format!("re-derived deviating message ({tag}) must be accepted iff every guess of the sender's index is right") });
-    }
-    if let Some(Ok(so)) = &got {
-        if deviating.iter().all(|d| d.guess == 0) && bytemuck::bytes_of(&**so) != bytemuck::bytes_of(hon) {
-            rep.pred_fail(Failure { stream: "adversary".into(), index: idx, request: vec![areq, sreq], impl_out: "different outputs".into(), model_out: "honest outputs".into(), key: "ss:selective-failure:guess-0-outputs".into(), what: format!("deviating message accepted with all guesses 0 ({tag}) but the sender's outputs are not those of the honest message") });
+    let vreq = format!("ss verdicts {} {} {} {}", hexw(&c.sid), rc_hex(&c.sd), dec_hex(&c.sd), msgs.iter().map(hex::encode).collect::<Vec<_>>().join(","));
+    let model_v: Vec<char> = drv.ask_with(&vreq, &mut |q| oracle::answer(q)).chars().collect();
+    for (n, (a, m)) in cases.iter().zip(&msgs).enumerate() {
+        let (devs, tag) = (&a.devs, &a.tag);
+        let areq = adv_req(c, devs);
+        let idx = rep.case("adversary", Some(&areq));
+        rep.hist(&format!("adv:{tag}"));
+        let deviating: Vec<&Dev> = devs.iter().filter(|d| d.e != [0u8; L_PRIME_BYTES]).collect();
+        if deviating.is_empty() && m != hon_r1 {
+            rep.diverge(Failure { stream: "adversary".into(), index: idx, request: vec![areq.clone()], impl_out: "honest message".into(), model_out: "different".into(), key: "ss:adv-model".into(), what: "advReceiver without deviation differs from the honest message of the implementation".into() });
+        }
+        // the u-blocks of the deviating message are the honest ones xor e (the adversary really deviates as claimed)
+        for d in devs { if (0..L_PRIME_BYTES).any(|b| m[d.block * L_PRIME_BYTES + b] != hon_r1[d.block * L_PRIME_BYTES + b] ^ d.e[b]) {
+            rep.diverge(Failure { stream: "adversary".into(), index: idx, request: vec![areq.clone()], impl_out: "u_i xor e_i".into(), model_out: "different".into(), key: "ss:adv-model".into(), what: "advReceiver's u block is not the honest block xor the deviation".into() }); } }
+        let expect_accept = deviating.iter().all(|d| d.guess == c.sd.r.random_choices[d.block]);
+        let sreq = send_req(&c.sid, &c.sd, m);
+        let got = run_send(&c.sid, &c.sd.r, m);
+        let got_s = send_str(&got);
+        let impl_v = match got { Some(Ok(_)) => '1', Some(Err(())) => '0', None => 'p' };
+        if model_v.get(n) != Some(&impl_v) {
+            rep.diverge(Failure { stream: "adversary".into(), index: idx, request: vec![areq.clone(), sreq.clone()], impl_out: impl_v.to_string(), model_out: model_v.get(n).map(|c| c.to_string()).unwrap_or_default(), key: "ss:send-model".into(), what: format!("Lean model and SoftSpokenOTSender::process verdicts disagree (adversarial message, {tag})") });
+        }
+        let accepted = impl_v == '1';
+        if accepted && full > 0 {
+            full -= 1;
+            rep.hist("adv:accepted-outputs-compared-with-model");
+            let model = drv.ask_with(&sreq, &mut |q| oracle::answer(q));
+            if got_s != model {
+                rep.diverge(Failure { stream: "adversary".into(), index: idx, request: vec![areq.clone(), sreq.clone()], impl_out: got_s.clone(), model_out: model, key: "ss:send-model".into(), what: format!("Lean model senderProcess and SoftSpokenOTSender::process outputs disagree (adversarial message, {tag})") });
+            }
+        }
+        rep.hist(if accepted { "adv-verdict:accepted" } else { "adv-verdict:ban" });
+        if accepted != expect_accept || got.is_none() {
+            rep.pred_fail(Failure { stream: "adversary".into(), index: idx, request: vec![areq.clone(), sreq.clone()], impl_out: clip(&got_s), model_out: (if expect_accept { "accepted" } else { "ban" }).into(), key: format!("ss:selective-failure:{}", if expect_accept { "right-guess-rejected" } else { "wrong-guess-accepted" }), what: format!("re-derived deviating message ({tag}) must be accepted iff every guess of the sender's index is right") });
+        }
+        if let Some(Ok(so)) = &got {
+            if deviating.iter().all(|d| d.guess == 0) {
+                rep.hist("adv:accepted-with-all-guesses-0");
+                if bytemuck::bytes_of(&**so) != bytemuck::bytes_of(hon) {
+                    rep.pred_fail(Failure { stream: "adversary".into(), index: idx, request: vec![areq, sreq], impl_out: "different outputs".into(), model_out: "honest outputs".into(), key: "ss:selective-failure:guess-0-outputs".into(), what: format!("deviating message accepted with all guesses 0 ({tag}) but the sender's outputs are not those of the honest message") });
+                }
+            }
         }
     }
 }
@@ -471,14 +511,14 @@ fn adversary(drv: &mut Driver, rep: &mut Report, c: &Case, hon_r1: &[u8], hon: &
 fn adversary_stream(o: &Opts, drv: &mut Driver, rep: &mut Report) {
     let mut rng = case_rng(o.seed, "c04-adv");
     let thorough = o.tier == "thorough";
-    let bases = if thorough { 6 } else { 1 } * o.scale as usize;
+    let bases = if thorough { 3 } else { 1 } * o.scale as usize;
     for k in 0..bases {
         // seeds with a mixture of punctured indices, zeros included (so that "guess 0" can be right)
         let mut c = fresh_case(&mut rng, k, Delta::Random, "adv-base");
         for i in 0..NB { if i % 3 == 0 { set_delta(&mut c.sd, i, 0); } }
         if k % 2 == 1 { for i in 0..NB { if i % 5 == 1 { set_delta(&mut c.sd, i, 15); } } }
         let Some((r1, Some(hon))) = honest(drv, rep, "adversary-base", &c, true) else { continue };
-        adversary(drv, rep, &c, &r1, &hon, &[], "no-deviation");
+        let mut cases: Vec<AdvCase> = vec![AdvCase { devs: vec![], tag: "no-deviation".into() }];
         let blocks: Vec<usize> = if thorough { (0..NB).collect() } else { vec![0, 1, 62, 63, rng.gen_range(2..62), 3 * rng.gen_range(1..20)] };
         let mut kind = k;
         for &b in &blocks {
@@ -488,12 +528,12 @@ fn adversary_stream(o: &Opts, drv: &mut Driver, rep: &mut Report) {
             if delta != 0 { guesses.push((0, "guess=0(wrong)")); } else { guesses[0].1 = "guess=0=delta"; }
             for (g, gtag) in guesses {
                 let (e, etag) = gen_e(&mut rng, kind); kind += 1;
-                adversary(drv, rep, &c, &r1, &hon, &[Dev { block: b, e, guess: g }], &format!("1-block:{etag}:{gtag}"));
+                cases.push(AdvCase { devs: vec![Dev { block: b, e, guess: g }], tag: format!("1-block:{etag}:{gtag}") });
             }
         }
         // zero deviation with a wrong guess: nothing deviates, accepted
         { let b = rng.gen_range(0..NB); let g = c.sd.r.random_choices[b] ^ 3;
-          adversary(drv, rep, &c, &r1, &hon, &[Dev { block: b, e: [0; L_PRIME_BYTES], guess: g }], "zero-deviation:wrong-guess"); }
+          cases.push(AdvCase { devs: vec![Dev { block: b, e: [0; L_PRIME_BYTES], guess: g }], tag: "zero-deviation:wrong-guess".into() }); }
         // several blocks: all right / exactly one wrong / all guess 0 on blocks whose index is 0
         let multi = if thorough { 8 } else { 3 };
         for r in 0..multi {
@@ -502,15 +542,13 @@ fn adversary_stream(o: &Opts, drv: &mut Driver, rep: &mut Report) {
             let mk = |rng: &mut rand_chacha::ChaCha20Rng, bs: &[usize], wrong: Option<usize>, kind: &mut usize| -> Vec<Dev> {
                 bs.iter().enumerate().map(|(q, &b)| { let (e, _) = gen_e(rng, *kind); *kind += 1;
                     let d = c.sd.r.random_choices[b]; Dev { block: b, e, guess: if wrong == Some(q) { d ^ (1 << (q % 4)) } else { d } } }).collect() };
-            let devs = mk(&mut rng, &bs[..n], None, &mut kind);
-            adversary(drv, rep, &c, &r1, &hon, &devs, &format!("{n}-blocks:all-right"));
+            cases.push(AdvCase { devs: mk(&mut rng, &bs[..n], None, &mut kind), tag: format!("{n}-blocks:all-right") });
             let w = rng.gen_range(0..n);
-            let devs = mk(&mut rng, &bs[..n], Some(w), &mut kind);
-            adversary(drv, rep, &c, &r1, &hon, &devs, &format!("{n}-blocks:one-wrong"));
+            cases.push(AdvCase { devs: mk(&mut rng, &bs[..n], Some(w), &mut kind), tag: format!("{n}-blocks:one-wrong") });
             let zeros: Vec<usize> = (0..NB).filter(|&i| c.sd.r.random_choices[i] == 0).take(n).collect();
-            let devs = mk(&mut rng, &zeros, None, &mut kind);
-            adversary(drv, rep, &c, &r1, &hon, &devs, &format!("{}-blocks:all-guess-0-right", zeros.len()));
+            cases.push(AdvCase { devs: mk(&mut rng, &zeros, None, &mut kind), tag: format!("{}-blocks:all-guess-0-right", zeros.len()) });
         }
+        adversaries(drv, rep, &c, &r1, &hon, &cases, if thorough { 16 } else { 5 });
     }
 }
 
@@ -525,8 +563,11 @@ pub fn run_c04(o: &Opts, drv: &mut Driver, rep: &mut Report) {
         c.choices = pats[k % pats.len()].1; c.tag = pats[k % pats.len()].0.into();
         honest(drv, rep, "honest", &c, true);
     }
+    let t0 = std::time::Instant::now();
     tamper_stream(o, drv, rep);
+    let t1 = std::time::Instant::now();
     adversary_stream(o, drv, rep);
+    if std::env::var("SS_TIMING").is_ok() { eprintln!("tamper {:?} adversary {:?}", t1 - t0, t1.elapsed()); }
 }
 
 pub fn run(o: &Opts, drv: &mut Driver, rep: &mut Report, prop: &str) {
